@@ -266,7 +266,7 @@ class RearrivalAtRunningTask(Monitor):
                 continue
             key = (s["id"], s["route"])
             pidx = pre["tasks"].get("%s__r%s" % key)
-            busy = pidx is not None and pre["sequence"][pidx]["status"] in ACTIVE
+            busy = pidx is not None and pre["sequence"][pidx].get("status") in ACTIVE
             if busy or key in pre_staged:
                 self.stats["rearrivals_at_running_task"] += 1
                 run.tags.add("rearrival_at_running_task")
